@@ -10,13 +10,15 @@ from common import (coqchk, Rng, assumptions, coq_make, harness_build, harness_b
 
 PROP = "C13"
 THEOREMS = ["C13_model_smoke", "C13_no_wedge_all_schedules", "C13_current_handlers_never_wedge", "C13_all_handlers_disciplined", "C13_blocked_thread_resumes",
-            "C13_parked_task_holds_no_map_lock", "C13_timeout_releases_locks", "C13_guard_across_await_deadlock_refuted", "C13_old_handler_undisciplined"]
+            "C13_parked_task_holds_no_map_lock", "C13_timeout_releases_locks", "C13_guard_across_await_deadlock_refuted", "C13_old_handler_undisciplined", "C13_source_no_map_guard_across_await"]
 
 REQS = {
     "JOIN_new": lambda i: sl.frame("JOIN", [("id", i), ("channel", "!c3@localhost")]),
     "JOIN_behalf": lambda i: sl.frame("JOIN", [("id", i), ("channel", "!c2@localhost"), ("on_behalf", "bob@localhost")]),
     "LEAVE_owner": lambda i: sl.frame("LEAVE", [("id", i), ("channel", "!c1@localhost")]),
     "LEAVE_member": lambda i: sl.frame("LEAVE", [("id", i), ("channel", "!c2@localhost")]),
+    "JOIN_c2": lambda i: sl.frame("JOIN", [("id", i), ("channel", "!c2@localhost")]),
+    "JOIN_c1": lambda i: sl.frame("JOIN", [("id", i), ("channel", "!c1@localhost")]),
     "CHANNELS_owner": lambda i: sl.frame("CHANNELS", [("id", i), ("owner", True)]),
     "CHANNELS": lambda i: sl.frame("CHANNELS", [("id", i)]),
     "MEMBERS": lambda i: sl.frame("MEMBERS", [("id", i), ("channel", "!c1@localhost")]),
@@ -185,6 +187,12 @@ def run(tier, replay=None):
         # always: the historical deadlock witness and its neighbours
         must = [(("LEAVE_owner", "CHANNELS_owner"), pat, None) for pat in PATTERNS] + [(("LEAVE_member", "CHANNELS_owner"), "park1_release", None),
                                                                                       (("JOIN_new", "CHANNELS_owner"), "park1_release", None)]
+        # same-channel pairs: the second request meets the channel (its lock, its map entry) while the first is suspended
+        same = [("LEAVE_member", "JOIN_c2"), ("LEAVE_member", "JOIN_behalf"), ("LEAVE_member", "LEAVE_member"), ("LEAVE_owner", "JOIN_c1"),
+                ("LEAVE_owner", "MEMBERS"), ("LEAVE_owner", "BROADCAST"), ("JOIN_new", "JOIN_new"), ("JOIN_behalf", "LEAVE_member"),
+                ("JOIN_behalf", "JOIN_c2"), ("LEAVE_member", "CHANNELS")]
+        must += [(pq, pat, None) for pq in same for pat in ("park1_release", "park1_never", "park1_err")]
+        must += [(("LEAVE_member",), "park1_release", "JOIN_c2"), (("LEAVE_member",), "park1_never", "JOIN_behalf"), (("JOIN_new",), "park1_release", "JOIN_new")]
         if thorough:
             sel = must + allc + triples
         else:
